@@ -1762,9 +1762,9 @@ class Union(OR):
                     if self._yield_when_false_:
                         yield from self.evaluate_right(output)
                     continue
+                self.update_cache(output, self._cache_)
                 if self._is_duplicate_output_(output):
                     continue
-                self.update_cache(output, self._cache_)
                 yield output
         finally:
             self.left._eval_parent_ = left_prev
@@ -1783,11 +1783,11 @@ class Union(OR):
                 self._is_false_ = self.left._is_false_ and self.right._is_false_
             else:
                 self._is_false_ = False
+            self.update_cache(sources, self._cache_)
             if not self._is_false_:
                 if self._is_duplicate_output_(sources):
                     continue
             self.right_evaluated = True
-            self.update_cache(sources, self._cache_)
             yield sources
 
 
@@ -1830,10 +1830,12 @@ class ElseIf(OR):
                             output.update(right_value)
                             if self._is_false_ and not self._yield_when_false_:
                                 continue
+                            # cached before duplicates are dropped: a value that is a duplicate for the variables
+                            # required now is still a result of the right side for later lookups.
+                            self.update_cache(right_value, self.right_cache)
                             if not self._is_false_:
                                 if self._is_duplicate_output_(output):
                                     continue
-                            self.update_cache(right_value, self.right_cache)
                             yield output
                         self.mark_cache_complete(left_value, self.right_cache)
                     finally:
